@@ -2,8 +2,6 @@ package main
 
 import (
 	"fmt"
-	"os"
-	"runtime/debug"
 	"strings"
 
 	"verifh/lib"
@@ -103,9 +101,6 @@ func (fx *fctx) resolve(n string) (kind string, b *Binding) {
 	k, b := fx.parent.resolve(n)
 	if k == "global" {
 		return "global", nil
-	}
-	if os.Getenv("C17DBG") != "" {
-		fmt.Fprintln(os.Stderr, "upval", n, "in fn", fx.fn.ID, string(debug.Stack()))
 	}
 	fx.fn.Upvals = append(fx.fn.Upvals, Binding{n, b.Val})
 	return "upval", &fx.fn.Upvals[len(fx.fn.Upvals)-1]
@@ -613,12 +608,7 @@ func (g *gen) observeFrame(fx *fctx, at *Point, siteOf func() *Expr) {
 // defLines: linedefined / lastlinedefined of the function at that level (skipped for the main
 // chunk at finalisation, where the tokens are -1).
 func (g *gen) defLines(fo func() *Func, at, lvl int) {
-	g.lines = append(g.lines, lineObs{"exact", func() int { return fo().FuncTok }, func() int {
-		if f := fo(); f.IsStmt {
-			return f.ParenTok
-		}
-		return fo().FuncTok
-	}, obsSrc{"ldef", 0, at, lvl}, "linedefined"})
+	g.lines = append(g.lines, lineObs{"exact", func() int { return fo().FuncTok }, func() int { return fo().FuncTok }, obsSrc{"ldef", 0, at, lvl}, "linedefined"})
 	g.lines = append(g.lines, lineObs{"exact", func() int { return fo().EndTok }, func() int { return fo().EndTok }, obsSrc{"llast", 0, at, lvl}, "lastlinedefined"})
 }
 
@@ -1221,6 +1211,11 @@ func genProgram(r *lib.Rand) *Generated {
 		acts = append(acts, action{K: "fault", Fault: k, Scen: 0})
 	}
 	main.Body = g.genSeq(fx, acts, 0)
+	return finish(g, main)
+}
+
+// finish emits the program and resolves the observations to token indices.
+func finish(g *gen, main *Func) *Generated {
 	p := emitProgram(main)
 	out := &Generated{Prog: p, Main: main, G: g, FnIdx: map[*Func]int{}}
 	for i, f := range p.Fns {
